@@ -441,26 +441,9 @@ def rule_tentative(ck):
         sts = [n for n in bl.cfg.nodes if n.kind == "stmt" and isinstance(n.stmt, ast.Assign) and isinstance(n.stmt.targets[0], ast.Subscript) and dotted(n.stmt.targets[0].value) == nm]
         ok = bool(sts) and all(canon(n.stmt.targets[0].slice) in idx_ok and canon(bl.expand(n.stmt.value, n)) in mids for n in sts)
         ck.require(ok, "C07.R3", bi, c, ok="the checked schedule holds mid at the station", bad="the schedule checked by the bisection does not hold the midpoint at the station index", sink="bisect:checked-schedule")
-    # discrete search
-    df = repo.fn("SortedSchedulingAlgo.discrete_max_feasible_rate")
-    dl = flow_of(df)
-    dcfg = dl.cfg
-    whiles = [n for n in dcfg.nodes if n.kind == "test" and isinstance(n.stmt, ast.While)]
-    ck.require(len(whiles) == 1, "C07.R3", df, "while not feasible(new_schedule)", bad=f"{len(whiles)} loops in the discrete search", sink="discrete:loop")
-    for w in whiles:
-        e = w.expr
-        ok = isinstance(e, ast.UnaryOp) and isinstance(e.op, ast.Not) and is_feasible_call(e.operand) and dotted(e.operand.args[0]) == "new_schedule"
-        ck.require(ok, "C07.R3", df, e, ok="continues while the candidate schedule is infeasible", bad="the search loop is not `while not feasible(new_schedule)`", sink="discrete:cond")
-        brk = [n for n in dcfg.nodes if n.kind == "break"]
-        for b in brk:
-            zero = [n for n in dcfg.nodes if n.kind == "stmt" and isinstance(n.stmt, ast.Assign) and isinstance(n.stmt.targets[0], ast.Subscript)
-                    and dotted(n.stmt.targets[0].value) == "new_schedule" and isinstance(n.stmt.value, ast.Constant) and n.stmt.value.value == 0 and dcfg.dominates(n, b)]
-            neg = any((c := cmp_norm(dl.expand(a, b), t)) and c[1] == "<" and canon(c[2]) == "0" for a, t in facts_at(dl, b))
-            ck.require(bool(zero) and neg, "C07.R3", df, b.stmt, ok="gives up with literal 0 once every candidate failed", bad="the search is abandoned without falling back to 0 after exhausting the candidates",
-                       sink="discrete:fallback")
-    for r in [n for n in dcfg.nodes if n.kind == "return"]:
-        ck.require(canon(r.expr) == "new_schedule[station_index]", "C07.R3", df, r.stmt, ok="returns the last candidate written (feasible or 0)", bad="the discrete search does not return new_schedule[station_index]",
-                   sink="discrete:return")
+    # discrete search: typestate over the working copy (value written at the station x what the feasibility check said about it)
+    from .discrete import rule_discrete_search
+    rule_discrete_search(ck, rid_safe="C07.R3", which=("safe",))
     # round robin tentative / revert (facts and expanded values: robust to temporaries, guard clauses and inverted tests)
     rr = repo.fn("RoundRobin.round_robin")
     rl = flow_of(rr)
